@@ -25,6 +25,13 @@ def apply (st : St) (cmd : String) (args : List String) : Option (St × Spec.Mon
   | "mono.new", [w, h] =>
     let w ← w.toNat?; let h ← h.toNat?
     pure ({ st with c := newCanvas w h, t := {}, implPrev := Array.replicate (((w + 7) / 8) * h) 0 }, .noop)
+  | "mono.frombytes", [w, h, bits] =>
+    let w ← w.toNat?; let h ← h.toNat?; let bits ← unhex bits
+    -- what loading a slice means, stated on the record alone: the slice itself when it holds `wib·h` bytes, otherwise
+    -- the bytes present followed by zeros up to `wib·h`
+    let need := ((w + 7) / 8) * h
+    let expect : Array UInt8 := if bits.size ≥ need then bits else bits ++ Array.replicate (need - bits.size) 0
+    pure ({ st with c := createFromBytesOn st.c.geo.inv w h (canvasBytesOf bits), t := initText st.t, implPrev := expect }, .noop)
   | "mono.bbox", a =>
     let [x, y, w, h] ← ints a | none
     pure ({ st with c := setBoundingBox st.c x y w h }, .noop)
@@ -93,7 +100,7 @@ def step (st : St) (cmd : String) (args : List String) (impl : String) : St × S
     | some implAfter =>
       let eq := decide (implAfter.toList = bytesOfCanvas st'.c)
       -- the property predicate on the implementation's own before/after pair, geometry *before* the op
-      let (g, prev) := if cmd = "mono.new" then (specG st'.c, st'.implPrev) else (specG st.c, st.implPrev)
+      let (g, prev) := if cmd = "mono.new" ∨ cmd = "mono.frombytes" then (specG st'.c, st'.implPrev) else (specG st.c, st.implPrev)
       let h := Spec.Mono.checkBytes g op prev implAfter
       let hs := match h with | none => "H1" | some cl => s!"H0:{cl}"
       let st'' := { st' with implPrev := implAfter }
